@@ -38,9 +38,14 @@ def run_one(path):
     try:
         scratch = os.path.join(tmp, 'repo')
         subprocess.run(['rsync', '-a', '--exclude', 'target', '--exclude', '.git', REPO + '/', scratch + '/'], check=True)
-        err = apply_edits(scratch, m['edits'])
+        if m.get('patch'):
+            # a unified diff stored next to the json (behaviour-preserving refactorings written by independent agents)
+            pr = subprocess.run(['patch', '-p1', '-s', '-i', os.path.join(os.path.dirname(os.path.abspath(path)), m['patch'])], cwd=scratch, capture_output=True, text=True)
+            err = None if pr.returncode == 0 else 'patch does not apply: ' + (pr.stdout + pr.stderr)[-200:]
+        else:
+            err = apply_edits(scratch, m['edits'])
         if err:
-            return {'mutant': path, 'status': 'skipped', 'why': err}
+            return {'mutant': os.path.relpath(path, VERIF), 'status': 'skipped', 'why': err}
         props = m['property'] if isinstance(m['property'], list) else [m['property']]
         res = {'mutant': os.path.relpath(path, VERIF), 'status': 'caught', 'details': []}
         for prop in props:
